@@ -171,6 +171,16 @@ pub enum EvKind {
     StreamEnd {
         node: u8,
     },
+    HandlerStart {
+        node: u8,
+        id: u64,
+        inc: u32,
+        deadline_ms: i64,
+        deadline_us: i64,
+        trace: u128,
+        span: u64,
+        sampled: bool,
+    },
     HandlerPoll {
         node: u8,
         id: u64,
@@ -259,6 +269,7 @@ impl EvKind {
             Yielded { .. } => 30,
             StreamErr { .. } => 31,
             StreamEnd { .. } => 32,
+            HandlerStart { .. } => 39,
             HandlerPoll { .. } => 33,
             HandlerFinish { .. } => 34,
             HandlerDrop { finished, .. } => 35 + *finished as u64,
@@ -298,6 +309,7 @@ impl EvKind {
             Abandon { call } | CallSkipped { call } => mix(h, *call as u64),
             Sample { value, what, .. } => mix(mix(h, *value), what.len() as u64),
             Yielded { id, tag, .. } => mix(mix(h, *id), *tag),
+            HandlerStart { id, inc, deadline_ms, .. } => mix(mix(h, *id), mix(*inc as u64, *deadline_ms as u64)),
             HandlerPoll { id, inc, .. }
             | HandlerFinish { id, inc, .. }
             | HandlerDrop { id, inc, .. }
